@@ -39,6 +39,16 @@ func toError(err error) *Error {
 	var ecode uint32
 
 	ename := err.Error()
+	/* the os package wraps the errno of the failed call */
+	switch pe := err.(type) {
+	case *os.PathError:
+		err = pe.Err
+	case *os.LinkError:
+		err = pe.Err
+	case *os.SyscallError:
+		err = pe.Err
+	}
+
 	if e, ok := err.(syscall.Errno); ok {
 		ecode = uint32(e)
 	} else {
